@@ -141,7 +141,7 @@ def build_hosted(rng, *, capacity: int, grain: int, ngte: int = 512, states=None
     c = data_start
     farc = far_sector
     for g in _order(rng, alloc, placement):
-        if far_sector and rng.random() < 0.5:
+        if far_sector and rng.random() < 0.5 and farc + 3 * grain <= 0xFFFFFFFF:
             pos[g] = farc
             farc += grain * rng.randrange(1, 3)
             continue
@@ -192,7 +192,7 @@ def build_hosted(rng, *, capacity: int, grain: int, ngte: int = 512, states=None
 
 def build_stream_optimized(rng, *, capacity: int, grain: int, ngte: int = 512, states=None, tag: int = 1,
                            descriptor: str | None = None, level: int = 6, version: int = 3, incompressible_frac: float = 0.15,
-                           tuned_frac: float = 0.35):
+                           tuned_frac: float = 0.35, slots: bool = False):
     """Stream-optimized hosted sparse extent: compressed grains with markers, GD located via the footer."""
     ngrains = -(-capacity // grain)
     if states is None:
@@ -259,7 +259,9 @@ def build_stream_optimized(rng, *, capacity: int, grain: int, ngte: int = 512, s
             stats["comp_sizes"].append(len(comp))
             if len(rec) > SECTOR:
                 stats["multi_sector"] += 1
-            cur += len(rec) // SECTOR
+            # slots: every record occupies at least a grain-sized slot (padding between records is legal), so
+            # consecutive grains sit exactly one grain apart in the file like in an uncompressed extent
+            cur += max(len(rec) // SECTOR, grain if slots else 0)
         if any_alloc or rng.random() < 0.3:
             # grain table marker + table
             sf.put(cur * SECTOR, struct.pack("<QII", gt_sectors, 0, 1).ljust(SECTOR, b"\0"))
@@ -305,7 +307,7 @@ def build_stream_optimized(rng, *, capacity: int, grain: int, ngte: int = 512, s
 
 
 def build_cowd(rng, *, capacity: int, grain: int, states=None, placement: str = "shuffle", tag: int = 1, kind: int = 0,
-               empty_tables: bool = True):
+               empty_tables: bool = True, far_sector: int = 0):
     """ESX COWD sparse extent (4096-entry grain tables, 32-bit fields, 4-sector header)."""
     ngte = 4096
     ngrains = -(-capacity // grain)
@@ -330,7 +332,12 @@ def build_cowd(rng, *, capacity: int, grain: int, states=None, placement: str = 
         cur += gt_sectors
     alloc = sorted(g for g, s_ in st.items() if s_ == "A")
     pos = {}
+    farc = far_sector
     for g in _order(rng, alloc, placement):
+        if far_sector and rng.random() < 0.5 and farc + 3 * grain <= 0xFFFFFFFF:
+            pos[g] = farc
+            farc += grain * rng.randrange(1, 3)
+            continue
         if placement not in ("seq", "runs", "revruns") and rng.random() < 0.15:
             cur += rng.randrange(1, 2 * grain)
         pos[g] = cur
